@@ -120,8 +120,8 @@ pub fn check(t: &Trace<'_>, out: &mut CaseOut) -> bool {
                     CPacket::PubComp { pid, reason, .. } => (7, *pid, *reason),
                     _ => continue,
                 };
-                if t.op_at(ev).is_some_and(|o| t.log.ops[o].kind == "disconnect") {
-                    continue; // completed by DISCONNECT bytes (C01 finding)
+                if t.op_at(ev).is_some_and(|o| t.log.ops[o].kind == "disconnect") && !t.conns[*conn].stream_ok {
+                    continue; // completed by DISCONNECT bytes landing inside it (broken stream)
                 }
                 out.count("acks_on_wire", 1);
                 if !acks_judged {
